@@ -380,13 +380,25 @@ example : ∃ d : Nat → Rat, NN d ∧
 
 example : (3 : Rat) * (1/1000) ≤ (1 - 1/2) * truncSlack (1/2) 3 (1/1000) := truncSlack_pays _ _ _ (by norm_num)
 
-/-! ## the cut as the source has it (`tools/extract_c03.py` → `Gen.C03Src.gapminWeightCut`, `gapminMassCut`; threshold `Gen.equalToleranceSmall`) -/
-
-theorem src_gapmin_weight_cut : Gen.C03Src.gapminWeightCut = true := rfl
-theorem src_gapmin_mass_cut : Gen.C03Src.gapminMassCut = true := rfl
+/-! ## the cut as the source has it (`tools/extract_c03.py` → `Gen.C03Src.gapminWeightCut`, `gapminMassCut`, `projecterObsCut`; threshold
+    `Gen.equalToleranceSmall`).  The statements hold for either value of the flags, so they keep applying once the cut is removed. -/
 
 /-- what `makeNewPomdp` stores of a weight vector returned by `LPInterpolation` -/
 def libCut (w : Nat → Rat) : Nat → Rat := if Gen.C03Src.gapminWeightCut then truncW Gen.equalToleranceSmall w else w
+
+theorem tolSmall_nonneg : (0 : Rat) ≤ Gen.equalToleranceSmall := by unfold Gen.equalToleranceSmall; norm_num
+
+theorem libCut_nonneg (w : Nat → Rat) (hw : ∀ j, 0 ≤ w j) : ∀ j, 0 ≤ libCut w j := by
+  intro j; unfold libCut; split
+  · exact truncW_nonneg _ w hw j
+  · exact hw j
+
+theorem libCut_diff (w : Nat → Rat) (hw : ∀ j, 0 ≤ w j) : ∀ j, 0 ≤ w j - libCut w j ∧ w j - libCut w j ≤ Gen.equalToleranceSmall := by
+  intro j; unfold libCut; split
+  · unfold truncW; split
+    · exact ⟨by have := hw j; linarith, by linarith⟩
+    · exact ⟨by linarith, by have := tolSmall_nonneg; linarith⟩
+  · exact ⟨by linarith, by have := tolSmall_nonneg; linarith⟩
 
 /-- a row of GapMin's belief-augmented SOSA table, as stored, reconstructs the successor up to a residual of mass at most `n·1e-6` -/
 theorem libCut_residual (S n : Nat) (bel : Nat → Nat → Rat) (hbel : ∀ j, j < n → NN (bel j))
@@ -394,11 +406,21 @@ theorem libCut_residual (S n : Nat) (bel : Nat → Nat → Rat) (hbel : ∀ j, j
     (hrec : ∀ s, s < S → y s = sumTo n (fun j => w j * bel j s)) :
     (∀ j, 0 ≤ libCut w j) ∧
     ∃ d : Nat → Rat, NN d ∧ (∀ s, s < S → y s = sumTo n (fun j => libCut w j * bel j s) + d s) ∧ mass S d ≤ (n : Rat) * Gen.equalToleranceSmall := by
-  have hθ : (0 : Rat) ≤ Gen.equalToleranceSmall := by unfold Gen.equalToleranceSmall; norm_num
-  unfold libCut
-  rw [src_gapmin_weight_cut]
-  simp only [if_true]
-  exact ⟨truncW_nonneg _ w hw, truncW_residual S n _ hθ bel hbel hm w hw y hrec⟩
+  refine ⟨libCut_nonneg w hw, fun s => sumTo n (fun j => (w j - libCut w j) * bel j s), fun s => ?_, fun s hs => ?_, ?_⟩
+  · exact sumTo_nonneg (fun j hj => mul_nonneg (libCut_diff w hw j).1 (hbel j hj s))
+  · rw [hrec s hs, ← sumTo_add]
+    exact sumTo_congr (fun j _ => by ring)
+  · unfold mass
+    rw [sumTo_comm]
+    have : sumTo n (fun j => sumTo S (fun s => (w j - libCut w j) * bel j s)) ≤ sumTo n (fun _ => Gen.equalToleranceSmall) := by
+      refine sumTo_le (fun j hj => ?_)
+      rw [sumTo_mul_left]
+      have := hm j hj
+      unfold mass at this
+      rw [this, mul_one]
+      exact (libCut_diff w hw j).2
+    rw [sumTo_const] at this
+    exact this
 
 /-- a whole successor of mass at most the threshold whose row is left empty (`checkDifferentSmall(sum, 0.0)` false) is its own residual -/
 theorem massCut_residual (S n : Nat) (bel : Nat → Nat → Rat) (y : Nat → Rat) (hy : NN y) (θ : Rat) (hmass : mass S y ≤ θ) :
@@ -420,15 +442,8 @@ theorem cut_table_residuals (m : POMDP) (n : Nat) (bel : Nat → Nat → Rat) (h
       (∀ a, a < m.A → ∀ o, o < m.O → ∀ i, i < n → ∀ s1, s1 < m.S →
         bstep m (bel i) a o s1 = sumTo n (fun j => libCut (W a o i) j * bel j s1) + d a o i s1) ∧
       (∀ i, i < n → ∀ a, a < m.A → sumTo m.O (fun o => mass m.S (d a o i)) ≤ (m.O : Rat) * ((n : Rat) * Gen.equalToleranceSmall)) := by
-  have hθ : (0 : Rat) ≤ Gen.equalToleranceSmall := by unfold Gen.equalToleranceSmall; norm_num
-  have hcut : ∀ w : Nat → Rat, libCut w = truncW Gen.equalToleranceSmall w := by
-    intro w; unfold libCut; rw [src_gapmin_weight_cut]; simp
-  have hdiff : ∀ (w : Nat → Rat), (∀ j, 0 ≤ w j) → ∀ j, 0 ≤ w j - libCut w j ∧ w j - libCut w j ≤ Gen.equalToleranceSmall := by
-    intro w hw j
-    rw [hcut]; unfold truncW; split
-    · exact ⟨by have := hw j; linarith, by linarith⟩
-    · exact ⟨by linarith, by linarith⟩
-  refine ⟨fun a o i j => by rw [hcut]; exact truncW_nonneg _ _ (hW0 a o i) j,
+  have hdiff : ∀ (w : Nat → Rat), (∀ j, 0 ≤ w j) → ∀ j, 0 ≤ w j - libCut w j ∧ w j - libCut w j ≤ Gen.equalToleranceSmall := libCut_diff
+  refine ⟨fun a o i j => libCut_nonneg _ (hW0 a o i) j,
     fun a o i s => sumTo n (fun j => (W a o i j - libCut (W a o i) j) * bel j s), fun a o i s => ?_, fun a ha o ho i hi s1 hs1 => ?_, fun i _ a _ => ?_⟩
   · exact sumTo_nonneg (fun j hj => mul_nonneg (hdiff _ (hW0 a o i) j).1 (hbel j hj s))
   · rw [hrec a ha o ho i hi s1 hs1, ← sumTo_add]
@@ -519,5 +534,23 @@ theorem pointBackup_cut_sound (m : POMDP) (hv : Valid m) (U : (Nat → Rat) → 
   have h4 := mul_le_mul_of_nonneg_left hskip hv.γ0
   have h5 := mul_le_mul_of_nonneg_right hpay hmx
   nlinarith [hv.γ0, hv.γ1]
+
+/-- the threshold `Projecter::computePossibleObservations` has in the source: `equalToleranceSmall`, or 0 once the test is `> 0.0` -/
+def projTheta : Rat := if Gen.C03Src.projecterObsCut then Gen.equalToleranceSmall else 0
+
+theorem projTheta_nonneg : 0 ≤ projTheta := by
+  unfold projTheta; split
+  · exact tolSmall_nonneg
+  · exact le_refl 0
+
+/-- the point backup PBVI / PERSEUS / GapMin's inner PBVI execute (Projecter with the possible-observation test the source has) is sound up to
+    `e` per unit of mass whenever `γ·K·O·projTheta ≤ (1−γ)·e`; with the test `> 0.0` (`projTheta = 0`) that is every `e ≥ 0` -/
+theorem pointBackup_src_cut_sound (m : POMDP) (hv : Valid m) (U : (Nat → Rat) → Rat) (hU : SuperSol m U) (cL e K : Rat)
+    (hcL : ∀ y, NN y → cL * mass m.S y ≤ U y) (hK0 : 0 ≤ K) (hK : -(cL + e) ≤ K)
+    (hpay : m.γ * K * ((m.O : Rat) * projTheta) ≤ (1 - m.γ) * e)
+    (a : Nat) (ha : a < m.A) (skip : Nat → Bool) (ch : Nat → Nat → Rat)
+    (hch : ∀ o, o < m.O → if skip o then ((∀ s1, s1 < m.S → m.Ob s1 a o ≤ projTheta) ∧ ∀ s, ch o s = 0) else LBSoundE m U e (ch o)) :
+    LBSoundE m U e (backupVec m a ch) :=
+  pointBackup_cut_sound m hv U hU cL e K projTheta hcL hK0 hK projTheta_nonneg hpay a ha skip ch hch
 
 end AITB.POMDP3
